@@ -506,6 +506,7 @@ fn lflag() -> i64 {
 fn cmd_getpass(buflen: usize) {
     let mut buf = vec![0xAAu8; buflen];
     let before = lflag();
+    emit(&json!({"ready": true}));
     mark("MARK:getpass:begin");
     let r = vharness::guarded(|| tiny_std::linux::get_pass::get_pass(&mut buf).map(|s| s.as_bytes().to_vec()));
     mark("MARK:getpass:end");
